@@ -257,6 +257,9 @@ def system_model(ctx):
 
         def position_relative_to_cartesian(self, s):
             return np.asarray(s, dtype=object).dot(V) + o
+        reciprocal_vects = property(lambda self: Vi.T.copy())
+        vects = property(lambda self: V.copy())
+        origin = property(lambda self: o.copy())
     P = symarray('p', (2, 3), real=True)
     D = symarray('d', (2, 3), real=True)
     props = {'atype': arr([1, 2]), 'pos': P, 'disp': D}
@@ -264,21 +267,25 @@ def system_model(ctx):
 
     class AtomsW(PyStub):
         natoms = 2
+        natypes = 2
+        atypes = (1, 2)            # the types in use: the system knows one more symbol than that (a type without atoms yet)
+        atype = arr([1, 2])
 
         def model(self, **kw):
             return _atoms_model(ctx, atoms, **kw)
     n = 0
-    for tag, masses, punit in (('all masses, positions scaled', (sp.Symbol('m1'), sp.Symbol('m2')), {'atype': None, 'pos': 'scaled', 'disp': 'nm'}),
-                               ('one mass missing, positions in nm', (sp.Symbol('m1'), None), {'atype': None, 'pos': 'nm', 'disp': 'scaled'}),
-                               ('first mass missing', (None, sp.Symbol('m2')), {'atype': None, 'pos': 'angstrom', 'disp': None}),
-                               ('no masses', (None, None), {'atype': None, 'pos': 'scaled', 'disp': None})):
+    SYMS = ('Al', None, 'Ni')
+    for tag, masses, punit in (('all masses, positions scaled', (sp.Symbol('m1'), sp.Symbol('m2'), sp.Symbol('m3')), {'atype': None, 'pos': 'scaled', 'disp': 'nm'}),
+                               ('one mass missing, positions in nm', (sp.Symbol('m1'), None, sp.Symbol('m3')), {'atype': None, 'pos': 'nm', 'disp': 'scaled'}),
+                               ('first mass missing', (None, sp.Symbol('m2'), None), {'atype': None, 'pos': 'angstrom', 'disp': None}),
+                               ('no masses', (None, None, None), {'atype': None, 'pos': 'scaled', 'disp': None})):
         n += 1
         box = BoxM()
 
         class PBC(PyStub):
             def tolist(self):
                 return [True, False, True]
-        me = SymObj(None, {'box': box, 'pbc': PBC(), 'symbols': ('Al', None), 'masses': masses, 'atoms': AtomsW()}, 'self')
+        me = SymObj(None, {'box': box, 'pbc': PBC(), 'symbols': SYMS, 'masses': masses, 'atoms': AtomsW(), 'natypes': 3}, 'self')
         ev = _ev(ctx, SYS)
         try:
             p = [q for q in ev.run_fn(fn, [me], {'box_unit': 'nm', 'prop_unit': dict(punit)}) if q.done == 'return']
@@ -290,8 +297,8 @@ def system_model(ctx):
         ctx.need(len(p) == 1, 'System.model does not reduce to one path (%s)' % tag)
         m = p[0].ret
         a = m.get('atomic-system') if isinstance(m, dict) else None
-        ok = a is not None and a.get('box') == ('BOXMODEL', 'nm') and a.get('periodic-boundary-condition') == [True, False, True] and a.aslist('atom-type-symbol') == ['Al', None]
-        ctx.ob('SYSTEM-MODEL', loc, '%s: box (in the requested unit), periodic flags and symbols are written' % tag, bool(ok), str(list(a.keys()) if a is not None else m), node=fn, key=tag + ' header')
+        ok = a is not None and a.get('box') == ('BOXMODEL', 'nm') and a.get('periodic-boundary-condition') == [True, False, True] and a.aslist('atom-type-symbol') == list(SYMS)
+        ctx.ob('SYSTEM-MODEL', loc, '%s: box (in the requested unit), periodic flags and every symbol the system knows (also of a type without atoms yet) are written' % tag, bool(ok), str(list(a.keys()) if a is not None else m), node=fn, key=tag + ' header')
         if a is None:
             continue
         wm = a.aslist('atom-type-mass')
@@ -344,7 +351,7 @@ def system_model(ctx):
         bad = [k for k in props if k not in view or np.shape(view[k]) != np.shape(props[k]) or not all(sp.simplify(a_ - b_) == 0 for a_, b_ in zip(np.ravel(view[k]), np.ravel(props[k])))]
         ctx.ob('SYSTEM-MODEL', SYS + '::System.__init__', '%s: every per-atom property read back equals the one written (box-relative storage converted back with the same box)' % tag, not bad,
                'differs: %s' % bad, node=init, key=tag + ' read props')
-        okh = e1.get('pbc') is not None and [bool(x_) for x_ in e1['pbc']] == [True, False, True] and tuple(e1.get('symbols') or ()) == ('Al', None) and tuple(e1.get('masses') or ()) == tuple(masses)
+        okh = e1.get('pbc') is not None and [bool(x_) for x_ in e1['pbc']] == [True, False, True] and tuple(e1.get('symbols') or ()) == SYMS and tuple(e1.get('masses') or ()) == tuple(masses)
         ctx.ob('SYSTEM-MODEL', SYS + '::System.__init__', '%s: periodic flags, symbols and masses read back are those of the system' % tag, bool(okh),
                'pbc %s symbols %s masses %s' % (e1.get('pbc'), e1.get('symbols'), e1.get('masses')), node=init, key=tag + ' read header')
     ctx.floor('SYSTEM-MODEL', n, 4)
